@@ -99,6 +99,12 @@ func (a *activityManager) dispatch() {
 		raftNode = a.getRaft()
 		index    = a.LastPublishedRaftIndex() + 1
 	)
+	// The last published index is not part of a Raft snapshot, so after a
+	// restart from one it may lie before the entries the compacted log still
+	// holds. Start at the first entry that is still there.
+	if first, err := raftNode.store.FirstIndex(); err == nil && index < first {
+		index = first
+	}
 	for {
 		select {
 		case <-a.leadershipLostCh:
